@@ -94,7 +94,7 @@ func init() {
 		Assumptions: []string{"writers and deleters of one measurement exclude each other (the Store's guard, modelled by a harness lock); snapshots, compactions and readers are unconstrained"},
 	})
 	reg(&checkSpec{
-		ID: "C02", Harness: "eng", Inst: storagePkgs, Level: "fault_enumeration", Classes: []string{"C02:", "crash"},
+		ID: "C02", Harness: "eng", Inst: storagePkgs, Level: "fault_enumeration", Classes: []string{"C02:", "C03:resurrected", "crash"}, // an acknowledged delete undone by a crash is a C02 violation as well
 		Cfgs: []cfgSpec{
 			{Name: "crash-single-client", Cfg: "clients=1,imgcap=10,cutden=25,noreopen,nosettle,wreopen=1", Gating: true, Share: 4},
 			{Name: "crash-concurrent", Cfg: "clients=3,imgcap=6,cutden=60,wrace=3,noreopen,nosettle,stallden=400", Gating: true, Share: 2},
@@ -224,8 +224,11 @@ func init() {
 	fileCfg := "clients=2,wdel=3,wdm=1,wsnap=4,wfull=1,wbulk=2,noreopen,settle_s=12,filecheck"
 	reg(&checkSpec{
 		ID: "C06", Harness: "eng", Inst: storagePkgs, Level: "exploration", Classes: []string{"C06:"},
-		Cfgs: []cfgSpec{{Name: "keycursor-over-engine-files", Cfg: fileCfg + ",nocompactcheck,notombcheck", Gating: true, Share: 1},
-			{Name: "keycursor-over-many-uncompacted-files", Cfg: fileCfg + ",nocompactcheck,notombcheck,nocompact,wsnap=9,maxops=90", Gating: true, Share: 1}},
+		Cfgs: []cfgSpec{{Name: "keycursor-over-engine-files", Cfg: fileCfg + ",nocompactcheck,notombcheck,nowritercheck", Gating: true, Share: 1},
+			{Name: "keycursor-over-many-uncompacted-files", Cfg: fileCfg + ",nocompactcheck,notombcheck,nowritercheck,nocompact,wsnap=9,maxops=90", Gating: true, Share: 1},
+			// three to six uncompacted generations: overlapping blocks in several files, but rarely the location-order
+			// cycle of known finding C06-F1, and cheap runs
+			{Name: "keycursor-over-few-uncompacted-files", Cfg: fileCfg + ",nocompactcheck,notombcheck,nowritercheck,nocompact,wsnap=9,wdel=1,maxops=24", Gating: true, Share: 2}},
 		QuickSecs: 100, ThoroughSecs: 600, MaxRunsPerProc: 150,
 		Rule:      "one case = the set of TSM files and tombstones a real engine produced under one generated write/overwrite/delete/snapshot/compaction program and seeded schedule, read through KeyCursor at every timestamp +-1 of every key, both directions, scalar and array form; non-trivial = at least 4 operations and one context switch; distinct = distinct hash of (operations, schedule)",
 		Probes:    []string{"filecheck_multi_file", "filecheck_tombstones", "keycursor_reads"},
